@@ -70,9 +70,14 @@ def gen_workflow(rng: random.Random, opts=None):
             'exec_retries': rng.choice([0, 0, 0, 1, 2]) if opts.get('retries', True) else 0,
             'sub_retries': rng.choice([0, 0, 0, 1]) if opts.get('retries', True) else 0,
         }
-    icp = rng.choice([1, 1, 3])
+    # C46 (additive): option icp_choices = other initial points (e.g. 8, so that the cycle points cross 9 -> 10
+    # and compare differently as strings and as numbers); default: the old list, same single draw
+    icp = rng.choice(opts.get('icp_choices') or [1, 1, 3])
     fcp = icp + rng.randint(1, opts.get('max_span', 4))
     offs = ['-P1', '-P1', '-P2'] if icp >= 3 else ['-P1']
+    if opts.get('offsets') and icp >= 3:
+        # C46 (additive): option offsets = the inter-cycle offsets on offer (longer than one step, e.g. -P2, -P3)
+        offs = list(opts['offsets'])
 
     def rhs_text(t):
         return t + ('?' if prof[t]['opt_fail'] else '')
@@ -138,6 +143,19 @@ def gen_workflow(rng: random.Random, opts=None):
             for t in names:
                 if any(tok.split('[')[0].split(':')[0].rstrip('?') == t for tok in ln.replace('(', ' ').replace(')', ' ').split()):
                     mentioned.add(t)
+    if opts.get('p_multirec') and rng.random() < opts['p_multirec']:
+        # C01 (additive, no random draw unless the option is set): one parentless task `m` on two recurrences whose
+        # points interleave (different step or phase), optionally with one child per recurrence; the cycle range is
+        # widened so that a successor of an instance lies on the other recurrence
+        ra, rb = rng.choice([('P2', '+P1/P2'), ('P2', 'P3'), ('P3', '+P1/P3'), ('+P1/P2', 'P3'), ('P2', '+P2/P3')])
+        with_kids = rng.random() < 0.5
+        for r, kid in ((ra, 'ma'), (rb, 'mb')):
+            if r not in sections:
+                sections[r] = []
+                recs = sorted(set(recs) | {r})
+            sections[r].append(f'm => {kid}' if with_kids else 'm')
+        if fcp - icp < 4:
+            fcp = icp + rng.randint(4, 6)
     graph_txt = ''
     for rec in recs:
         body = '\n'.join('            ' + ln for ln in sections[rec])
@@ -192,6 +210,11 @@ def gen_workflow(rng: random.Random, opts=None):
         queues_txt = '    [[queues]]\n' + ''.join(qlines)
         # a wider runahead window: several cycles compete for the same queue
         runahead = max(runahead, rng.choice([1, 2, 3, 4]))
+    if opts.get('p_start_hold'):
+        # C06 (additive, only with option p_start_hold; drawn last): a hold point given at start-up
+        # (`cylc play --hold-after=N`, run option holdcp; the runner does not repeat it on restarts)
+        if rng.random() < opts['p_start_hold']:
+            run_opts['holdcp'] = str(rng.randint(icp, max(icp, fcp - 1)))
     flow = f'''[scheduler]
     allow implicit tasks = True
 [scheduling]
@@ -221,7 +244,7 @@ def gen_policy(rng, wf, kind='complete', opts=None):
         oc = {'custom': [c + c for c in p['custom']], 'p_custom': 1.0, 'p_fail': 0.0,
               'exec_retries': p['exec_retries'], 'sub_retries': p['sub_retries'],
               'p_retry_fail': 0.6}
-        if kind in ('complete', 'cmd', 'cmdtrigc', 'set', 'cmdrmc', 'cmdrmr', 'cmdrl', 'qc', 'cmdqc', 'crash', 'cmdcrash', 'fut'):   # ('fut': C04F/C07F, 'cmdtrigc': C28, 'set': C29/C08S, 'cmdrm*': C30, 'cmdrl': C27, additive)
+        if kind in ('complete', 'cmd', 'cmdtrigc', 'set', 'cmdrmc', 'cmdrmr', 'cmdrl', 'qc', 'cmdqc', 'cmdqtc', 'crash', 'cmdcrash', 'fut'):   # ('fut': C04F/C07F, 'cmdtrigc': C28, 'set': C29/C08S, 'cmdrm*': C30, 'cmdrl': C27, additive)
             if p['opt_fail']:
                 oc['p_fail'] = 0.4
             # optional custom outputs may be skipped; required ones are always produced
@@ -252,8 +275,17 @@ def gen_policy(rng, wf, kind='complete', opts=None):
         pol['p_poll'] = rng.choice([0.3, 0.6, 0.9])
         pol['p_spoll'] = rng.choice([0.0, 0.05, 0.15])
         pol['poll_late'] = rng.random() < opts.get('p_poll_late', 0.0)
+    if opts.get('fail_signals'):
+        pol['fail_signals'] = True
+    if opts.get('p_lose'):
+        pol['p_lose'] = opts['p_lose']
+    if opts.get('p_vacate'):
+        pol['p_vacate'] = opts['p_vacate']
     if opts.get('noise') is not None and kind != 'complete':
         pol['p_noise'] = opts['noise']
+    if opts.get('prep_fail') is not None and kind != 'complete':
+        # C02 (additive, no random draw): job-file preparation fails for some submissions (runner: p_prep_fail)
+        pol['p_prep_fail'] = opts['prep_fail']
     if opts.get('late') is not None and kind != 'complete':
         # C02 (additive, no random draw): late duplicates of the last message of finished jobs
         pol['p_late'] = opts['late']
@@ -278,6 +310,16 @@ def gen_policy(rng, wf, kind='complete', opts=None):
                        'stop_point', 'stop_clean', 'stop_now', 'pause', 'resume']
         pol['p_cmd'] = {0.4: 0.1, 0.6: 0.16, 0.8: 0.22}.get(pol.get('p_msg'), 0.16)
         pol['p_hold_queued'] = 0.6
+    if kind in ('cmdqt', 'cmdqtc'):
+        # C05S (additive; new kinds, applied after all draws): manual triggers against the queue limits - `cylc trigger`
+        # of several pooled members of one limited queue at once, of queued tasks, of members of a free queue while
+        # another queue is full (policy command 'trigger_q') - mixed with holds / releases and pause / resume (so that
+        # ready tasks pile up unqueued or queued); no stop, no restart ('cmdqtc': complete outcomes)
+        pol['cmds'] = ['trigger_q', 'trigger_q', 'trigger_q', 'hold', 'release', 'trigger_q', 'pause', 'resume',
+                       'trigger_q', 'set_hold_point', 'release_hold_point', 'trigger_q']
+        pol['p_cmd'] = {0.4: 0.12, 0.6: 0.18, 0.8: 0.25}.get(pol.get('p_msg'), 0.18)
+        pol['p_hold_queued'] = 0.3
+        pol['restarts'] = 0
     if kind in ('cmdtrig', 'cmdtrigc'):
         # C28 (additive; applied after all draws): group triggers mixed with holds / pause; no restarts;
         # the task_states / task_outputs tables are part of the observation ('cmdtrigc': complete outcomes)
@@ -315,9 +357,13 @@ def gen_policy(rng, wf, kind='complete', opts=None):
         # override the command mix / rate (e.g. a reload at nearly every main loop in the thorough tier)
         pol['cmds'] = (opts or {}).get('reload_cmds') or [
             'reload', 'reload', 'reload', 'reload', 'hold', 'release', 'reload', 'set_hold_point',
-            'release_hold_point', 'reload', 'pause', 'resume', 'reload', 'stop_point', 'stop_clean', 'stop_now']
+            'release_hold_point', 'reload', 'pause', 'resume', 'reload', 'stop_point', 'stop_clean', 'stop_now',
+            'stop_point', 'pause', 'stop_task']
         pol['p_cmd'] = (opts or {}).get('p_reload') or {0.4: 0.12, 0.6: 0.2, 0.8: 0.3}.get(pol.get('p_msg'), 0.2)
         pol['inst_off'] = True          # instance graph also for off-sequence points (see runner.extract_graph)
+        # a reload right behind another command (same command batch, no main loop in between), e.g. pause /
+        # stop point / hold followed at once by a reload
+        pol['p_reload_after_cmd'] = (opts or {}).get('p_reload_after_cmd', 0.4)
     if kind in ('crash', 'crashany', 'cmdcrash', 'cmdcrashany'):
         # C20 (additive; new kinds, drawn after everything else): the scheduler is killed 1-4 times per run - between
         # ops (k = -1) or inside a main loop at its k-th database commit boundary, before the transaction (j null) or
@@ -361,9 +407,10 @@ def gen_case(seed: int, kind='complete', opts=None):
         import gendt
         return gendt.gen_case(seed, kind, opts)
     rng = random.Random(seed)
-    if kind in ('qc', 'qa', 'cmdq', 'cmdqc'):
+    if kind in ('qc', 'qa', 'cmdq', 'cmdqc', 'cmdqt', 'cmdqtc'):
         # C05S (additive): the queue kinds generate workflows with limited internal queues
-        # ('qc' complete outcomes, 'qa' failures / noise, 'cmdq' / 'cmdqc' with holds and stop + restart)
+        # ('qc' complete outcomes, 'qa' failures / noise, 'cmdq' / 'cmdqc' with holds and stop + restart,
+        # 'cmdqt' / 'cmdqtc' with manual triggers)
         opts = dict(opts or {}, queues=True)
     if kind in ('qf', 'cmdqf'):
         # C03Q (additive): queues with limits 1-2, no retries, mostly required success, any outcomes
@@ -376,6 +423,19 @@ def gen_case(seed: int, kind='complete', opts=None):
     wf = gen_workflow(rng, opts)
     case = {'id': f'{kind}{seed}', 'flow': wf['flow'], 'seed': seed, 'opts': wf['opts'],
             'policy': gen_policy(rng, wf, kind, opts), 'ops': None, 'kind': kind}
+    if kind.startswith('set') and (opts or {}).get('xtrig'):
+        # C29 (additive, option 'xtrig', own random stream so that nothing else of the case changes): long retry
+        # delays - a task that fails (or fails to submit) with a retry left keeps waiting on its retry xtrigger
+        # `_cylc_retry_<p>_<name>` / `_cylc_submit_retry_<p>_<name>` - and `cylc set --pre=xtrigger/<label> | xtrigger/all`
+        # in the command mix
+        xr = random.Random(f'xtrig/{seed}')
+        lines = []
+        for ln in case['flow'].split('\n'):
+            if ('execution retry delays' in ln or 'submission retry delays' in ln) and xr.random() < 0.6:
+                ln = ln.replace('*PT0S', '*PT1H')
+            lines.append(ln)
+        case['flow'] = '\n'.join(lines)
+        case['policy']['xtrig'] = True
     if kind in ('cmdrl', 'cmdrla'):
         # C27 (additive, drawn after everything else): the definitions the run is reloaded with
         import genreload
